@@ -391,6 +391,9 @@ func Supervise(p *Prop, o Options) int {
 
 	// output
 	evDir := filepath.Join(o.Root, "evidence")
+	if d := os.Getenv("VERIF_EVIDENCE_DIR"); d != "" {
+		evDir = d // used when the checks are pointed at a mutated copy (tools/seeded_matrix_par.sh)
+	}
 	repDir := filepath.Join(evDir, "replays")
 	os.MkdirAll(repDir, 0o755)
 	// remove stale replay files of this property
